@@ -71,6 +71,8 @@ def _fold(n, env):
             return env[n.id]
         if n.id in ("True", "False", "None"):
             return {"True": True, "False": False, "None": None}[n.id]
+        if n.id in _PURE_BUILTINS:
+            return _PURE_BUILTINS[n.id]
         raise NotConstant(f"name {n.id}")
     if isinstance(n, ast.Attribute):
         key = _chain(n)
